@@ -37,10 +37,12 @@ impl Prop for C06 {
         v
     }
     fn strategy(&self, _tier: Tier) -> BoxedStrategy<GraphCase> {
-        let small = graph_strategy(&ALL_KINDS, 0, 10, edges_small, &[0, 1, 1, 3], 4);
+        let small = graph_strategy(&ALL_KINDS, 0, 10, edges_small, &[0, 1, 1, 3, 5, 6], 4);
         let mid = graph_strategy(&ALL_KINDS, 11, 20, edges_large, &[0, 1, 3], 3);
         let large = graph_strategy(&ALL_KINDS, 21, 34, edges_large, &[0, 1, 3], 3);
-        prop_oneof![30 => small, 2 => mid, 1 => large].boxed()
+        let boundary = boundary_graph_strategy(&ALL_KINDS, edges_large, &[0, 1, 3], 3, 255);
+        let big = big_graph_strategy(&[0, 1], 300, 3000, &[0, 1]);
+        prop_oneof![9000 => small, 600 => mid, 300 => large, 30 => boundary, 1 => big].boxed()
     }
     fn random_cases(&self, tier: Tier) -> u32 {
         tier.pick(200_000, 2_000_000)
@@ -53,10 +55,12 @@ impl Prop for C06 {
         let mut nontrivial = false;
         let modes: Vec<bool> = if ng.weighted { vec![true, false] } else { vec![false] };
         for weighted in modes {
-            let w = weight_matrix(&ng, weighted);
-            let d = floyd(&w);
+            let d = if n <= 260 { floyd(&weight_matrix(&ng, weighted)) } else { vec![] };
             let disconnected = d.iter().any(|r| r.iter().any(|x| *x == INF));
-            if ng.directed {
+            if n > 260 {
+                nontrivial = true;
+            }
+            if ng.directed && n <= 260 {
                 for u in 0..n {
                     let inc: f64 = (0..n).filter(|v| d[*v][u] < INF).map(|v| d[v][u]).sum();
                     let outg: f64 = (0..n).filter(|v| d[u][*v] < INF).map(|v| d[u][v]).sum();
@@ -69,7 +73,11 @@ impl Prop for C06 {
                 nontrivial = true;
             }
             for wf in [false, true] {
-                let want = closeness(&d, wf);
+                let want = if n <= 260 { closeness(&d, wf) } else { closeness_fast(&ng, weighted, wf) };
+                if n <= 10 {
+                    let f = closeness_fast(&ng, weighted, wf);
+                    assert!(want.iter().zip(&f).all(|(x, y)| approx(*x, *y, 1e-12, 1e-15)), "harness bug: fast closeness oracle disagrees with Floyd-Warshall");
+                }
                 let ctx = format!("closeness_centrality[{},wf={}]", if weighted { "weighted" } else { "hops" }, wf);
                 out.api_calls += 1;
                 match guard(|| closeness_centrality(&graph, weighted, wf)) {
@@ -81,7 +89,7 @@ impl Prop for C06 {
         }
         out.class(format!("kind_{}", ng.spec().label()));
         out.class(format!("wmode_{}", case.wmode));
-        out.class(if n <= 10 { "n<=10" } else if n <= 20 { "n_11_to_20" } else { "n>20_parallel_path" });
+        out.class(if n > 260 { "large_graph_300_to_3000_nodes" } else if n <= 10 { "n<=10" } else if n <= 20 { "n_11_to_20" } else if n <= 34 { "n>20_parallel_path" } else { "boundary_size_35_to_255" });
         out.nontrivial = nontrivial;
         out
     }
